@@ -26,6 +26,7 @@ func wsFunc(p *Prog, recv, name string) *ssa.Function {
 func init() {
 	register("C14", func(c *Ctx) {
 		c14ReplayOrderAndTemp(c)
+		c14OneRecordPerFlush(c)
 		_ = c.P
 		c.Explain = "Durability orderings of the consensus WAL decided on CFG/SSA of consensus/walstore: (sync-then-ack) the synced offset and committed:true are produced only after waitGroup.Wait() with syncErr == nil; (abort-repairs) both failure arms of appendSync truncate back to the last synced offset before returning; " +
 			"(index-after-commit) the live index is mutated only by addLiveEntry/deleteLiveHeight, reached from Flush only on the committed branch and from replay; (watermark-order) Write → Sync → Close → Rename → syncDir with each error returning first, and the watermark is durable before obsolete files are removed; " +
@@ -1141,4 +1142,35 @@ func c14FlushBody(p *Prog) *ssa.Function {
 		}
 	}
 	return fl
+}
+
+// c14OneRecordPerFlush: (one-record-per-flush) a flush is all-or-nothing because its pending records go to the log as ONE
+// physical batch: on the flush path the appendSync call is executed at most once per flush — it does not sit in a loop, and
+// a helper that contains it is not called from a loop of the flush. Seeded change C14-L splits flushes of more than 4096
+// records into several log records "to keep the encode buffer small": a crash between two physical writes leaves a partial
+// batch, and an fsync failure on a later chunk makes Flush report failure while the earlier chunks are durable.
+func c14OneRecordPerFlush(c *Ctx) {
+	p := c.P
+	fl := wsFunc(p, "tendermintWALStore", "flushLocked")
+	if fl == nil {
+		c.und("one-record-per-flush", "flushLocked", "", "anchor not found")
+		return
+	}
+	n := 0
+	for _, ds := range p.deepSites(fl, nameMatcher("appendSync"), 2) {
+		n++
+		bad := ""
+		if inSameLoop(ds.Site.Block(), ds.Site.Block()) {
+			bad = "appendSync is called in a loop at " + p.Pos(ds.Site.Pos())
+		}
+		for _, cs := range ds.Chain {
+			if inSameLoop(cs.Block(), cs.Block()) {
+				bad = "the helper that appends is called in a loop at " + p.Pos(cs.Pos())
+			}
+		}
+		c.check(bad == "", "one-record-per-flush", "flushLocked → appendSync", p.Pos(ds.Site.Pos()), "one physical batch per flush", "a flush writes its records as several physical batches ("+bad+"): the flush is no longer all-or-nothing across a crash or an fsync failure between two of them")
+	}
+	if n == 0 {
+		c.und("one-record-per-flush", "flushLocked", p.Pos(fnPos(fl)), "appendSync not reached from flushLocked")
+	}
 }
